@@ -35,7 +35,7 @@ type PlanC19 struct {
 	Faults   []FaultEv    `json:"faults"`
 }
 
-var c19Kinds = []string{"srv-finish", "srv-fail", "fin", "rst", "half", "garbage", "nonenv", "oversized", "restart", "srv-close", "outage"}
+var c19Kinds = []string{"srv-finish", "srv-fail", "fin", "rst", "half", "garbage", "nonenv", "oversized", "restart", "srv-close", "outage", "handler-gives-up"}
 
 func genC19(t *simrt.Tape, tier string) interface{} {
 	p := &PlanC19{}
@@ -204,7 +204,14 @@ func runC19(w *World, pi interface{}) {
 	defer func() { f.Close() }()
 	cliGot := map[string]bool{}
 	mux := &lime.EnvelopeMux{}
-	mux.MessageHandlerFunc(nil, func(ctx context.Context, m *lime.Message, s lime.Sender) error { cliGot[m.ID] = true; return nil })
+	mux.MessageHandlerFunc(nil, func(ctx context.Context, m *lime.Message, s lime.Sender) error {
+		cliGot[m.ID] = true
+		if strings.HasPrefix(m.ID, "giveup-") {
+			// a handler that ran into a timeout of its own and says so
+			return fmt.Errorf("handler gave up on %s: %w", m.ID, context.DeadlineExceeded)
+		}
+		return nil
+	})
 	mux.NotificationHandlerFunc(nil, func(ctx context.Context, n *lime.Notification) error { return nil })
 	mux.RequestCommandHandlerFunc(nil, func(ctx context.Context, c *lime.RequestCommand, s lime.Sender) error { return nil })
 	mux.ResponseCommandHandlerFunc(nil, func(ctx context.Context, c *lime.ResponseCommand, s lime.Sender) error { return nil })
@@ -327,6 +334,17 @@ func runC19(w *World, pi interface{}) {
 			}
 		case "srv-close":
 			if lost != nil {
+				lost.Ch.Close()
+			}
+		case "handler-gives-up":
+			// the client's own handler returns an error that wraps a context error (a timeout of its
+			// own), and the server drops the session right behind the message that caused it
+			if lost != nil {
+				txt := lime.TextDocument("too slow for you")
+				m := &lime.Message{}
+				m.SetContent(&txt).SetID(fmt.Sprintf("giveup-%d", round))
+				lost.Ch.SendMessage(ctx, m)
+				time.Sleep(50 * time.Millisecond)
 				lost.Ch.Close()
 			}
 		case "fin":
